@@ -871,6 +871,8 @@ func (e *Env) trCall(n *ast.CallExpr) TV {
 	case "box":
 		v := arg(0)
 		return TV{e.w.box(v.T, v.Ty), tyAny}
+	case "itoa":
+		return TV{A(e.w.ufunc("itoa", []string{"Int"}, "String"), arg(0).T), tyString}
 	case "disjoint":
 		a, b := arg(0).T, arg(1).T
 		return TV{Or(Eq(A("s_base", a), IntLit(0)), Eq(A("s_base", b), IntLit(0)), Not(Eq(A("s_base", a), A("s_base", b)))), tyBool}
